@@ -252,6 +252,48 @@ fn enumerate_number_faults(bytes: &[u8], values: &[(&str, &str)]) -> Vec<(Vec<u8
     out
 }
 
+/// every header line `KEY:value` / `KEY[SUB]:value` of `bytes` with its key damaged, one fault at a time: each single character
+/// of the key deleted (so also `KEY[SUB:`, `KEYSUB]:`), the sub-key cut off after the bracket (`KEY[:`), emptied (`KEY[]:`),
+/// brackets doubled or swapped, the key removed, the colon replaced by a space. A complete enumeration over one file
+/// (seeded change C18h: `KEY[:value` made the key grouping slice `len - 1` of an empty sub-key).
+fn enumerate_key_faults(bytes: &[u8]) -> Vec<(Vec<u8>, String)> {
+    let mut out = Vec::new();
+    if !bytes.windows(7).any(|w| w == b"[DATA]\n") { return out; }
+    let p = split(bytes);
+    let lines: Vec<String> = p.head.lines().map(|s| s.to_string()).collect();
+    for (li, line) in lines.iter().enumerate() {
+        let Some(colon) = line.find(':') else { continue };
+        if line.starts_with('[') && line.ends_with(']') { continue; }
+        let (key, rest) = (&line[..colon], &line[colon..]);
+        if !key.is_ascii() { continue; }
+        let mut variants: Vec<(String, String)> = Vec::new();
+        for k in 0..key.len() {
+            variants.push((format!("{}{}{}", &key[..k], &key[k + 1..], rest), format!("key-del:{}", &key[k..k + 1])));
+        }
+        if let Some(b) = key.find('[') {
+            variants.push((format!("{}{}", &key[..b + 1], rest), "key-cut-after-bracket".into()));
+            variants.push((format!("{}]{}", &key[..b + 1], rest), "key-empty-sub".into()));
+            variants.push((format!("{}[{}{}", &key[..b + 1], &key[b + 1..], rest), "key-double-open".into()));
+            variants.push((format!("{}]{}", key, rest), "key-double-close".into()));
+            variants.push((format!("{}]{}[{}", &key[..b], &key[b + 1..key.len().saturating_sub(1)], rest), "key-brackets-swapped".into()));
+            variants.push((format!("{}{}", &key[..b], rest), "key-without-sub".into()));
+        } else {
+            variants.push((format!("{}[{}", key, rest), "key-trailing-open".into()));
+            variants.push((format!("{}[X]{}", key, rest), "key-unexpected-sub".into()));
+        }
+        variants.push((rest.to_string(), "key-removed".into()));
+        variants.push((format!("{} {}", key, &rest[1..]), "colon-removed".into()));
+        for (l2, kind) in variants {
+            let mut ls = lines.clone();
+            ls[li] = l2;
+            let mut head = ls.join("\n");
+            head.push('\n');
+            out.push((join(&Parts { head, data: p.data.clone() }), kind));
+        }
+    }
+    out
+}
+
 pub fn gen(seed: u64, thorough: bool) {
     let mut rng = Rng::new(seed);
     let src = Sources::new();
@@ -277,6 +319,8 @@ pub fn gen(seed: u64, thorough: bool) {
         }
     }
     fixed.extend(enumerate_number_faults(&bundled, &[("0", "zero"), ("4000000000", "huge")]));
+    // every header key of one generated voice damaged in every single-character way
+    fixed.extend(enumerate_key_faults(&bases[1 % bases.len()]));
     let nfixed = fixed.len();
     for i in 0..(nfixed + n) {
         let (bytes, kind) = if i < nfixed { fixed[i].clone() } else {
